@@ -213,10 +213,11 @@ Definition expected (o : wopts) (m : wmesh) : result mesh :=
 
 (* ---------- well-formed input of ply.Write ---------- *)
 Definition reserved_names : list string := flat_map g_members default_groups.
-Definition user_attr (x : wattr) : bool :=
-  negb (claimed default_writers (wa_dim x) (wa_name x)) && negb (Nat.eqb (wa_dim x) 2 && seqb (wa_name x) "TexCoord").
-Definition user_names (m : wmesh) : list string :=
-  flat_map (fun d => flat_map (fun x => if Nat.eqb (wa_dim x) d && user_attr x then unspec_names d (wa_name x) else []) (w_attrs m)) [4; 3; 2; 1]%nat.
+(* the property writers the unspecified loops add for user-named attributes, and the property names they use *)
+Definition user_writers (m : wmesh) : list pw :=
+  filter (fun w => negb (is_default_writer w))
+         (flat_map (unspec_of_dim m (filter (qualifies m) default_writers)) [4; 3; 2; 1]%nat).
+Definition user_names (m : wmesh) : list string := flat_map pw_names (user_writers m).
 Definition row_okb (d : nat) (r : list N) : bool := Nat.eqb (List.length r) d && forallb word32b r.
 Definition unit_okb (w : N) : bool := match q255 w with Ok _ => true | Err _ => false end.
 Fixpoint nodupb (l : list string) : bool :=
@@ -231,6 +232,7 @@ Definition wf_mesh (m : wmesh) : bool :=
   && keys_nodupb (w_attrs m)                                                   (* one attribute per (dimension, name) *)
   && (match w_attrs m with [] => Nat.eqb (w_n m) 0 | _ => negb (Nat.eqb (w_n m) 0) end)
   && nodupb (user_names m) && forallb (fun n => negb (existsb (seqb n) reserved_names)) (user_names m)
+  && negb (existsb (seqb "Opacity") (user_names m))      (* a scalar property `Opacity` would collide with the attribute *)
   && match w_topo m with
      | TPoint => list_eqb Nat.eqb (w_idx m) (seq 0 (w_n m))                   (* NewPointCloud: identity indices *)
      | TTriangle => Nat.eqb (List.length (w_idx m) mod 3) 0 && forallb (fun i => (i <? w_n m)%nat) (w_idx m)
